@@ -1,5 +1,5 @@
 (* C14 -- Graphs returned by the parsers are closed and consistently linked. *)
-From Fences Require Import GraphSpec GraphLinks GraphOps GraphResolve GraphOptLinks Regex Grammar GrammarLinks RegexLinks Xml XmlLinks.
+From Fences Require Import GraphSpec GraphLinks GraphOps GraphResolve GraphOptLinks Regex Grammar GrammarLinks RegexLinks Xml XmlLinks JsonGen JsonLinks.
 
 (* add_transition keeps both directions in step: every graph built with the public API records
    each parent/child link on both ends with the right child index *)
@@ -102,3 +102,26 @@ Theorem C14_xsd_output : forall fuel schema draws st root,
     is_ref (x_graph st) x = false.
 Proof. exact parse_xsd_links. Qed.
 Print Assumptions C14_xsd_output.
+
+(* The JSON Schema front end, for every schema: the generator builds from the normal form a table that is linked on both
+   ends throughout; after resolve(), optimize() and the input / super-root / output nodes every node reachable from the
+   root of the graph parse_json_schema returns passes both checks of check_consistency and is not a Reference (every
+   "$ref" of the normal form was resolved, or resolve() raised its documented exception). *)
+Theorem C14_json_output : forall SV fuel schema st root,
+  parse_json_schema SV fuel schema = Ok (st, root) ->
+  forall x, reach (jb_graph st) root x ->
+    ((forall s i, In (s, i) (ins_of (jb_graph st) x) -> is_dec (jb_graph st) s = true /\ nth_error (outs_of (jb_graph st) s) i = Some x) /\
+     (forall i t, nth_error (outs_of (jb_graph st) x) i = Some t -> In (x, i) (ins_of (jb_graph st) t))) /\
+    is_ref (jb_graph st) x = false.
+Proof. exact parse_json_schema_links. Qed.
+Print Assumptions C14_json_output.
+
+(* the same for a normal form given directly (config.normalize = False, as the OpenAPI sample cache calls it) *)
+Theorem C14_json_nf_output : forall fuel nf st root,
+  parse_nf fuel nf = Ok (st, root) ->
+  forall x, reach (jb_graph st) root x ->
+    ((forall s i, In (s, i) (ins_of (jb_graph st) x) -> is_dec (jb_graph st) s = true /\ nth_error (outs_of (jb_graph st) s) i = Some x) /\
+     (forall i t, nth_error (outs_of (jb_graph st) x) i = Some t -> In (x, i) (ins_of (jb_graph st) t))) /\
+    is_ref (jb_graph st) x = false.
+Proof. exact parse_nf_links. Qed.
+Print Assumptions C14_json_nf_output.
